@@ -149,7 +149,28 @@ class SStr:
 
     def split(self, sep=None, maxsplit=-1):
         if sep is None:
-            raise Unsupported("str.split() on whitespace")
+            # runs of Unicode whitespace separate the pieces; no empty pieces
+            out, cur = [], []
+            items = self.items
+            i, n = 0, _real_len(items)
+            while i < n:
+                if _real_bool(_in_set(items[i], _WS)):
+                    if cur:
+                        out.append(mk_str(cur))
+                        cur = []
+                        if maxsplit >= 0 and _real_len(out) >= maxsplit:
+                            j = i
+                            while j < n and _real_bool(_in_set(items[j], _WS)):
+                                j += 1
+                            if j < n:
+                                out.append(mk_str(items[j:]))
+                            return out
+                else:
+                    cur.append(items[i])
+                i += 1
+            if cur:
+                out.append(mk_str(cur))
+            return out
         sep = citems(sep)
         k = _real_len(sep)
         if k == 0:
